@@ -60,6 +60,9 @@ def node_positions(case, with_jitter: bool = True) -> np.ndarray:
                 if jit:
                     p = p + np.array([jit[3 * idx + a] * amp[a] for a in range(3)])
                 pos[idx] = p
+    scale = case.get("scale")
+    if scale:
+        pos = pos * float(scale)
     off = case.get("offset")
     if off:
         pos = pos + np.asarray(off)
@@ -185,7 +188,22 @@ def lattice(draw, min_cells: int = 2, max_cells: int = 8, jitter: str = "maybe",
         case["offset"] = [mag * draw(st.sampled_from([1.0, -1.0, 0.0, 2.1])) for _ in range(3)]
     if merge != "no" and (merge == "yes" or draw(st.booleans())):
         case["merges"] = draw_merges(draw, case)
+    decorate(draw, case)
     return case
+
+
+def decorate(draw, case) -> None:
+    """features that have nothing to do with grading and must not influence it: blockMeshDict settings of the Mesh
+    (one case in three) and cellZone names of the operations (one case in three)"""
+    if draw(st.integers(0, 2)) == 0:
+        case["settings"] = {
+            "scale": draw(st.sampled_from([1, 0.001, 2.5])),
+            "mergeType": draw(st.sampled_from([None, "points"])),
+            "checkFaceCorrespondence": draw(st.sampled_from([None, "true", "false", "off"])),
+            "verbose": draw(st.sampled_from([None, "true", "false"])),
+        }
+    if draw(st.integers(0, 2)) == 0:
+        case["zones"] = [draw(st.sampled_from(["", "fluid", "solid", "porous"])) for _ in case["cells"]]
 
 
 def draw_merges(draw, case) -> List[Dict[str, Any]]:
@@ -495,6 +513,11 @@ def build(case, with_chops: bool = True) -> Built:
             side = [sd for sd, corners in SIDE_CORNERS.items() if all(CANON[perm[i]][a] == val for i in corners)]
             assert len(side) == 1
             b.ops[oi].set_patch(side[0], name)
+    for oi, zone in enumerate(case.get("zones") or []):
+        if zone and oi < len(b.ops):
+            b.ops[oi].set_cell_zone(zone)
+    for key, value in (case.get("settings") or {}).items():
+        b.mesh.settings[key] = value
     for op in b.ops:
         b.mesh.add(op)
     for mg in case.get("merges") or []:
